@@ -451,7 +451,15 @@ func genImport(gen *protogen.Plugin, g *generator.GeneratedFile, f *fileInfo, im
 
 	// Generate public imports by generating the imported file, parsing it,
 	// and extracting every symbol that should receive a forwarding declaration.
-	impGen := GenerateFile(gen, impFile, g)
+	// (into a scratch file of the imported file's own Go package that is never emitted - not into g, the file
+	// being generated)
+	impG := &generator.GeneratedFile{
+		GeneratedFile: gen.NewGeneratedFile(impFile.GeneratedFilenamePrefix+".pulsar.go", impFile.GoImportPath),
+		Ext:           g.Ext,
+		LocalPackages: g.LocalPackages,
+	}
+	impG.P("package ", impFile.GoPackageName) // the command, not this feature, writes the package clause
+	impGen := GenerateFile(gen, impFile, impG)
 	impGen.Skip()
 	b, err := impGen.Content()
 	if err != nil {
